@@ -6,7 +6,7 @@ import math
 import numpy as np
 
 from mc import schemas as S
-from mc.common2d import Reg, display_map, std_pairings, subtotal, with_subtotals
+from mc.common2d import SCALES, Reg, display_map, scale_invariant, scaled_parts, std_pairings, subtotal, with_subtotals
 from mc.compare import SKIP, arr_bytes, first_diff, num_eq
 from mc.engine import Res, digest, viol
 from mc.oracle import rank_rational, two_sided_normal_p
@@ -95,9 +95,12 @@ def check(space, state):
     asserted = 0
     outs = []
     nontrivial = False
-    for part, (kind, _lbl, orc) in zip(cube.partitions, oracles):
+    scaled = {e: scaled_parts(sch, data, cfg, e) for e in SCALES} if (sch.weighted and data and "bigw" not in space) else {}
+    for pidx, (part, (kind, _lbl, orc)) in enumerate(zip(cube.partitions, oracles)):
         if kind != "slice":
             continue
+        for e, sp in scaled.items():
+            asserted += scale_invariant(V, ["zscores"], part, sp[pidx], e, power=0.5)
         o = with_subtotals(orc, cfg)
         a = o.all(True)
         ro = display_map(part.row_order(), o.n_base_rows, len(o.row_specs))
